@@ -45,6 +45,8 @@ def run(ctx):
     from . import c12
     for sc_ in prog.subclasses('StreamInterface'):
         c12.r123_seed_wiring(ctx, sc_)
+    from ..statrules import memo_soundness
+    memo_soundness(ctx, 'R13.8', ['streams'])
     from ..statrules import shared_class_state
     shared_class_state(ctx, 'R13.6', sorted(c for c, ci in prog.classes.items() if ci.module.name == 'streams'),
                        'the seed a stream receives depends on what other experiments / updaters in the same process configured, not only on its name, '
